@@ -64,6 +64,9 @@ pub struct Scenario {
     pub post_fault_probe: bool,
     /// keep the events receiver (false: drop it right after connecting)
     pub keep_events: bool,
+    /// the application keeps the events receiver but does not poll it until the very end of the session
+    /// (a busy application); everything reported in between must still be there then
+    pub events_lazy: bool,
     /// run on a multi-thread runtime in real time (true parallel enqueueing); hang limit 30 s wall clock
     pub realtime: bool,
 }
@@ -81,6 +84,7 @@ impl Scenario {
             epilogue: true,
             post_fault_probe: false,
             keep_events: true,
+            events_lazy: false,
             realtime: false,
         }
     }
@@ -310,7 +314,11 @@ async fn run_caller(world: World, client: Client, k: usize, start: Duration, scr
     }
 }
 
-async fn collect_events(world: World, mut events: ConnectionEvents) {
+async fn collect_events(world: World, mut events: ConnectionEvents, gate: Option<std::sync::Arc<tokio::sync::Notify>>) {
+    if let Some(g) = gate {
+        g.notified().await;
+        world.log_ev(EvKind::Note("the application starts polling its events receiver".into()));
+    }
     loop {
         match events.next().await {
             Some(ConnectionEvent::SubsystemChange(s)) => world.log_ev(EvKind::EventChange(s.as_str().to_string())),
@@ -426,8 +434,9 @@ async fn session_main(sc: Scenario, d: Duration) -> Outcome {
             (client, events)
         }
     };
+    let gate = if sc.events_lazy { Some(std::sync::Arc::new(tokio::sync::Notify::new())) } else { None };
     let collector = if sc.keep_events {
-        Some(tokio::spawn(collect_events(world.clone(), events)))
+        Some(tokio::spawn(collect_events(world.clone(), events, gate.clone())))
     } else {
         // the application may drop the receiver if it does not care about events
         drop(events);
@@ -509,11 +518,24 @@ async fn session_main(sc: Scenario, d: Duration) -> Outcome {
         out.phase_after_quiet = Some(world.inner.lock().unwrap().phase);
         // end-to-end probe: notifications keep flowing
         world.change(&["epilogue_probe".to_string()]);
-        if sc.keep_events {
+        if sc.keep_events && !sc.events_lazy {
             out.epilogue_probe_delivered = Some(wait_for(&world, far, |e| matches!(e, EvKind::EventChange(n) if n == "epilogue_probe")).await);
         }
         // let the client re-idle after the probe
         tokio::time::sleep(Duration::from_secs(1)).await;
+    }
+    if !sc.epilogue && out.hung.is_empty() && !dropped_by_plan && !sc.notifications.is_empty() && !sc.realtime {
+        // the notification schedule may outlast the callers: let it finish and its replies be delivered, so that
+        // a base run shows the whole script (the fault positions of C08 are enumerated over what the base run saw)
+        let _ = tokio::time::timeout(far, &mut notifier).await;
+        for _ in 0..50 {
+            let before = (world.all_output_delivered(), world.inner.lock().unwrap().log.len());
+            tokio::time::sleep(out.d * 2 + Duration::from_millis(500)).await;
+            let after = (world.all_output_delivered(), world.inner.lock().unwrap().log.len());
+            if before.0 && after.0 && before.1 == after.1 {
+                break;
+            }
+        }
     }
     let mut fired = false;
     if sc.post_fault_probe && !dropped_by_plan {
@@ -554,6 +576,9 @@ async fn session_main(sc: Scenario, d: Duration) -> Outcome {
     if client.is_some() {
         drop(client.take());
         world.log_ev(EvKind::HandlesDropped);
+    }
+    if let Some(g) = &gate {
+        g.notify_one();
     }
     out.transport_dropped = wait_for(&world, far, |e| matches!(e, EvKind::TransportDropped)).await;
     if let Some(col) = collector {
